@@ -539,6 +539,463 @@ theorem tri_left (a b c : Result) :
     · exact dac x h y hy
     · exact dbc x h y hy
 
+/-! ### grouping symbols: balance, and the segments the recursive descent consumes -/
+
+/-- the three kinds of grouping symbols -/
+inductive BK where
+  | paren | sq | curly
+deriving DecidableEq, Repr
+
+/-- an opening or a closing grouping symbol -/
+inductive Br where
+  | op (k : BK)
+  | cl (k : BK)
+deriving DecidableEq, Repr
+
+/-- read grouping symbols with a stack of the open ones; `none` = a closing symbol without its partner -/
+def scan : List BK → List Br → Option (List BK)
+  | st, [] => some st
+  | st, .op k :: r => scan (k :: st) r
+  | [], .cl _ :: _ => none
+  | k' :: st, .cl k :: r => if k = k' then scan st r else none
+
+/-- properly nested -/
+def Balanced (bs : List Br) : Prop := scan [] bs = some []
+
+def brOfChar (c : Char) : Option Br :=
+  if c = '(' then some (.op .paren) else if c = ')' then some (.cl .paren)
+  else if c = '[' then some (.op .sq) else if c = ']' then some (.cl .sq)
+  else if c = '{' then some (.op .curly) else if c = '}' then some (.cl .curly)
+  else none
+
+/-- the grouping symbols `( ) [ ] { }` of a query text, in order -/
+def textBrs (s : Str) : List Br := s.filterMap brOfChar
+
+def brOfKind : Kind → Option Br
+  | .parenOpen => some (.op .paren) | .parenClose => some (.cl .paren)
+  | .descOpen => some (.op .sq) | .descClose => some (.cl .sq)
+  | .exactOpen => some (.op .curly) | .exactClose => some (.cl .curly)
+  | _ => none
+
+def brOf (t : Token) : Option Br := brOfKind t.kind
+def brs (ts : List Token) : List Br := ts.filterMap brOf
+
+/-- a stretch of grouping symbols that leaves every stack as it found it -/
+def Neutral (bs : List Br) : Prop := ∀ st rest, scan st (bs ++ rest) = scan st rest
+
+theorem neutral_nil : Neutral [] := fun _ _ => rfl
+
+theorem neutral_append {a b : List Br} (ha : Neutral a) (hb : Neutral b) : Neutral (a ++ b) := by
+  intro st rest; rw [List.append_assoc, ha, hb]
+
+theorem neutral_wrap {bs : List Br} (k : BK) (h : Neutral bs) : Neutral (.op k :: (bs ++ [.cl k])) := by
+  intro st rest
+  rw [List.cons_append, List.append_assoc]
+  simp only [scan]
+  rw [h]
+  simp [scan]
+
+theorem brs_append (a b : List Token) : brs (a ++ b) = brs a ++ brs b := by
+  simp [brs, List.filterMap_append]
+
+/-- `ts = c ++ r` where the consumed stretch `c` is neutral (claimed for the repaired parser only) -/
+def SegL (lg : Bool) (ts r : List Token) : Prop :=
+  ∃ c, ts = c ++ r ∧ (lg = false → Neutral (brs c))
+
+/-- the same with at least one token consumed -/
+def Seg (lg : Bool) (ts r : List Token) : Prop := SegL lg ts r ∧ r.length < ts.length
+
+theorem SegL.refl (lg : Bool) (ts : List Token) : SegL lg ts ts := ⟨[], rfl, fun _ => neutral_nil⟩
+
+theorem SegL.len {lg : Bool} {ts r : List Token} (h : SegL lg ts r) : r.length ≤ ts.length := by
+  rcases h with ⟨c, rfl, _⟩; simp
+
+theorem SegL.trans {lg : Bool} {a b c : List Token} (h1 : SegL lg a b) (h2 : SegL lg b c) : SegL lg a c := by
+  rcases h1 with ⟨c1, rfl, n1⟩
+  rcases h2 with ⟨c2, rfl, n2⟩
+  exact ⟨c1 ++ c2, by simp, fun h => by rw [brs_append]; exact neutral_append (n1 h) (n2 h)⟩
+
+theorem Seg.transL {lg : Bool} {a b c : List Token} (h1 : Seg lg a b) (h2 : SegL lg b c) : Seg lg a c :=
+  ⟨h1.1.trans h2, Nat.lt_of_le_of_lt h2.len h1.2⟩
+
+theorem Seg.plain {lg : Bool} {r r' : List Token} (t : Token) (ht : lg = false → brOf t = none)
+    (h : SegL lg r r') : Seg lg (t :: r) r' := by
+  rcases h with ⟨c, rfl, n⟩
+  refine ⟨⟨t :: c, rfl, fun hl => ?_⟩, by simp; omega⟩
+  have : brs (t :: c) = brs c := by simp [brs, ht hl]
+  rw [this]; exact n hl
+
+theorem Seg.wrap {lg : Bool} {r r2 : List Token} (t c : Token) (k : BK) (ht : brOf t = some (.op k))
+    (hc : brOf c = some (.cl k)) (h : SegL lg r (c :: r2)) : Seg lg (t :: r) r2 := by
+  rcases h with ⟨c1, rfl, n⟩
+  refine ⟨⟨t :: (c1 ++ [c]), by simp, fun hl => ?_⟩, by simp; omega⟩
+  have : brs (t :: (c1 ++ [c])) = .op k :: (brs c1 ++ [.cl k]) := by
+    simp [brs, List.filterMap_append, ht, hc]
+  rw [this]; exact neutral_wrap k (n hl)
+
+theorem takeClose_some {ts r : List Token} (h : takeClose ts = some r) :
+    ∃ d, ts = d :: r ∧ d.kind = .exactClose := by
+  unfold takeClose at h
+  split at h
+  · cases h
+  · rename_i d r0
+    split at h
+    · simp only [Option.some.injEq] at h; subst h; exact ⟨d, rfl, ‹_›⟩
+    · cases h
+
+theorem closeOf_ok {ex e : Expr} {o : Option (List Token)} {r : List Token}
+    (h : closeOf ex o = .ok (e, r)) : o = some r := by
+  unfold closeOf at h
+  split at h
+  · cases h
+  · split at h
+    · cases h
+    · simp only [Except.ok.injEq, Prod.mk.injEq] at h; rw [h.2]
+
+theorem closeOf_not_fuel (ex : Expr) (o : Option (List Token)) : closeOf ex o ≠ .error .fuel := by
+  unfold closeOf
+  split
+  · simp
+  · split <;> simp
+
+theorem afterColon_seg {lg : Bool} (sub : List Token → PRes)
+    (hsub : ∀ ts e r, sub ts = .ok (e, r) → SegL lg ts r) (e0 : Expr) (rest : List Token) (e : Expr)
+    (r : List Token) (h : afterColon sub e0 rest = .ok (e, r)) :
+    ∃ d, d.kind = .exactClose ∧ SegL lg rest (d :: r) := by
+  unfold afterColon at h
+  split at h
+  · rename_i r3 htc
+    have := closeOf_ok h
+    simp only [Option.some.injEq] at this
+    subst this
+    rcases takeClose_some htc with ⟨d, rfl, hd⟩
+    exact ⟨d, hd, SegL.refl _ _⟩
+  · split at h
+    · cases h
+    · rename_i l r3 hs
+      have hc := closeOf_ok h
+      rcases takeClose_some hc with ⟨d, rfl, hd⟩
+      exact ⟨d, hd, hsub _ _ _ hs⟩
+
+theorem afterColon_fuel (sub : List Token → PRes) (e0 : Expr) (rest : List Token)
+    (h : afterColon sub e0 rest = .error .fuel) : sub rest = .error .fuel := by
+  unfold afterColon at h
+  split at h
+  · exact absurd h (closeOf_not_fuel _ _)
+  · split at h
+    · rename_i x hx; simp only [Except.error.injEq] at h; rw [hx, h]
+    · exact absurd h (closeOf_not_fuel _ _)
+
+theorem termOf_plain {t : Token} {e : Expr} (h : termOf false t = .ok e) : brOf t = none := by
+  unfold termOf at h
+  split at h
+  · rename_i hk; simp [brOf, hk, brOfKind]
+  · split at h
+    · rename_i hk
+      simp only [Bool.or_false, decide_eq_true_eq] at hk
+      simp [brOf, hk, brOfKind]
+    · cases h
+
+/-- what each parsing function consumes -/
+def SegAll (lg : Bool) (f : Nat) : Prop :=
+  (∀ ts e r, pOr lg f ts = .ok (e, r) → Seg lg ts r) ∧
+  (∀ e0 ts e r, pOrLoop lg f e0 ts = .ok (e, r) → SegL lg ts r) ∧
+  (∀ ts e r, pAnd lg f ts = .ok (e, r) → Seg lg ts r) ∧
+  (∀ e0 ts e r, pAndLoop lg f e0 ts = .ok (e, r) → SegL lg ts r) ∧
+  (∀ ts e r, pNeg lg f ts = .ok (e, r) → Seg lg ts r) ∧
+  (∀ ts e r, pGroup lg f ts = .ok (e, r) → Seg lg ts r)
+
+theorem segAll (lg : Bool) : ∀ f, SegAll lg f := by
+  intro f
+  induction f with
+  | zero =>
+    refine ⟨?_, ?_, ?_, ?_, ?_, ?_⟩
+    · intro ts e r h; rw [pOr.eq_def] at h; cases h
+    · intro e0 ts e r h; rw [pOrLoop.eq_def] at h; cases h
+    · intro ts e r h; rw [pAnd.eq_def] at h; cases h
+    · intro e0 ts e r h; rw [pAndLoop.eq_def] at h; cases h
+    · intro ts e r h; rw [pNeg.eq_def] at h; cases h
+    · intro ts e r h; rw [pGroup.eq_def] at h; cases h
+  | succ f ih =>
+    rcases ih with ⟨iOr, iOrL, iAnd, iAndL, iNeg, iGrp⟩
+    refine ⟨?_, ?_, ?_, ?_, ?_, ?_⟩
+    · -- pOr
+      intro ts e r h
+      rw [pOr.eq_def] at h; simp only at h
+      split at h
+      · cases h
+      · rename_i e1 r1 h1
+        exact (iAnd _ _ _ h1).transL (iOrL _ _ _ _ h)
+    · -- pOrLoop
+      intro e0 ts e r h
+      rw [pOrLoop.eq_def] at h; simp only at h
+      split at h
+      · simp only [Except.ok.injEq, Prod.mk.injEq] at h; rw [← h.2]; exact SegL.refl _ _
+      · rename_i t r0
+        split at h
+        · rename_i hk
+          split at h
+          · cases h
+          · rename_i e2 r2 h2
+            exact (Seg.plain t (fun _ => by simp [brOf, hk, brOfKind])
+              ((iAnd _ _ _ h2).1.trans (iOrL _ _ _ _ h))).1
+        · simp only [Except.ok.injEq, Prod.mk.injEq] at h; rw [← h.2]; exact SegL.refl _ _
+    · -- pAnd
+      intro ts e r h
+      rw [pAnd.eq_def] at h; simp only at h
+      split at h
+      · cases h
+      · rename_i e1 r1 h1
+        exact (iNeg _ _ _ h1).transL (iAndL _ _ _ _ h)
+    · -- pAndLoop
+      intro e0 ts e r h
+      rw [pAndLoop.eq_def] at h; simp only at h
+      split at h
+      · simp only [Except.ok.injEq, Prod.mk.injEq] at h; rw [← h.2]; exact SegL.refl _ _
+      · rename_i t r0
+        split at h
+        · rename_i hk
+          split at h
+          · cases h
+          · rename_i e2 r2 h2
+            exact (Seg.plain t (fun _ => by simp [brOf, hk, brOfKind])
+              ((iNeg _ _ _ h2).1.trans (iAndL _ _ _ _ h))).1
+        · simp only [Except.ok.injEq, Prod.mk.injEq] at h; rw [← h.2]; exact SegL.refl _ _
+    · -- pNeg
+      intro ts e r h
+      rw [pNeg.eq_def] at h; simp only at h
+      split at h
+      · exact iGrp _ _ _ h
+      · rename_i t r0
+        split at h
+        · rename_i hk
+          split at h
+          · cases h
+          · rename_i e2 r2 h2
+            split at h
+            · cases h
+            · simp only [Except.ok.injEq, Prod.mk.injEq] at h; rw [← h.2]
+              exact Seg.plain t (fun _ => by simp [brOf, hk, brOfKind]) (iGrp _ _ _ h2).1
+        · exact iGrp _ _ _ h
+    · -- pGroup
+      intro ts e r h
+      rw [pGroup.eq_def] at h; simp only at h
+      split at h
+      · cases h
+      · rename_i t r0
+        split at h
+        · -- ( ... )
+          rename_i hk
+          split at h
+          · cases h
+          · rename_i e1 r1 h1
+            split at h
+            · cases h
+            · rename_i c r2
+              split at h
+              · rename_i hc
+                simp only [Except.ok.injEq, Prod.mk.injEq] at h; rw [← h.2]
+                exact Seg.wrap t c .paren (by simp [brOf, hk, brOfKind]) (by simp [brOf, hc, brOfKind])
+                  (iOr _ _ _ h1).1
+              · cases h
+        · split at h
+          · -- [ ... ]
+            rename_i hk
+            split at h
+            · cases h
+            · rename_i e1 r1 h1
+              split at h
+              · cases h
+              · rename_i c r2
+                split at h
+                · rename_i hc
+                  simp only [Except.ok.injEq, Prod.mk.injEq] at h; rw [← h.2]
+                  exact Seg.wrap t c .sq (by simp [brOf, hk, brOfKind]) (by simp [brOf, hc, brOfKind])
+                    (iOr _ _ _ h1).1
+                · cases h
+          · split at h
+            · -- { ... }
+              rename_i hk
+              split at h
+              · cases h
+              · rename_i e1 r1 h1
+                split at h
+                · cases h
+                · rename_i c r2
+                  split at h
+                  · rename_i hc
+                    simp only [Except.ok.injEq, Prod.mk.injEq] at h; rw [← h.2]
+                    exact Seg.wrap t c .curly (by simp [brOf, hk, brOfKind]) (by simp [brOf, hc, brOfKind])
+                      (iOr _ _ _ h1).1
+                  · split at h
+                    · rename_i hc
+                      rcases afterColon_seg (pOr lg f) (fun ts e r hh => (iOr ts e r hh).1) _ _ _ _ h with
+                        ⟨d, hd, hseg⟩
+                      exact Seg.wrap t d .curly (by simp [brOf, hk, brOfKind]) (by simp [brOf, hd, brOfKind])
+                        ((iOr _ _ _ h1).1.trans (Seg.plain c (fun _ => by simp [brOf, hc, brOfKind]) hseg).1)
+                    · cases h
+            · -- a term
+              split at h
+              · cases h
+              · rename_i e1 h1
+                simp only [Except.ok.injEq, Prod.mk.injEq] at h; rw [← h.2]
+                refine Seg.plain t (fun hl => ?_) (SegL.refl _ _)
+                subst hl
+                exact termOf_plain h1
+
+/-- the fuel given by `parseToks` is never used up -/
+def FuelAll (lg : Bool) (f : Nat) : Prop :=
+  (∀ ts, 6 * ts.length + 4 ≤ f → pOr lg f ts ≠ .error .fuel) ∧
+  (∀ e0 ts, 6 * ts.length + 1 ≤ f → pOrLoop lg f e0 ts ≠ .error .fuel) ∧
+  (∀ ts, 6 * ts.length + 3 ≤ f → pAnd lg f ts ≠ .error .fuel) ∧
+  (∀ e0 ts, 6 * ts.length + 1 ≤ f → pAndLoop lg f e0 ts ≠ .error .fuel) ∧
+  (∀ ts, 6 * ts.length + 2 ≤ f → pNeg lg f ts ≠ .error .fuel) ∧
+  (∀ ts, 6 * ts.length + 1 ≤ f → pGroup lg f ts ≠ .error .fuel)
+
+theorem fuelAll (lg : Bool) : ∀ f, FuelAll lg f := by
+  intro f
+  induction f with
+  | zero =>
+    refine ⟨?_, ?_, ?_, ?_, ?_, ?_⟩ <;> intros <;> omega
+  | succ f ih =>
+    rcases ih with ⟨iOr, iOrL, iAnd, iAndL, iNeg, iGrp⟩
+    rcases segAll lg f with ⟨sOr, sOrL, sAnd, sAndL, sNeg, sGrp⟩
+    refine ⟨?_, ?_, ?_, ?_, ?_, ?_⟩
+    · intro ts hb h
+      rw [pOr.eq_def] at h; simp only at h
+      split at h
+      · rename_i x hx
+        simp only [Except.error.injEq] at h; subst h
+        exact iAnd ts (by omega) hx
+      · rename_i e1 r1 h1
+        have := (sAnd _ _ _ h1).2
+        exact iOrL e1 r1 (by omega) h
+    · intro e0 ts hb h
+      rw [pOrLoop.eq_def] at h; simp only at h
+      split at h
+      · cases h
+      · rename_i t r0
+        split at h
+        · split at h
+          · rename_i x hx
+            simp only [Except.error.injEq] at h; subst h
+            simp only [List.length_cons] at hb
+            exact iAnd r0 (by omega) hx
+          · rename_i e2 r2 h2
+            have := (sAnd _ _ _ h2).2
+            simp only [List.length_cons] at hb
+            exact iOrL _ r2 (by omega) h
+        · cases h
+    · intro ts hb h
+      rw [pAnd.eq_def] at h; simp only at h
+      split at h
+      · rename_i x hx
+        simp only [Except.error.injEq] at h; subst h
+        exact iNeg ts (by omega) hx
+      · rename_i e1 r1 h1
+        have := (sNeg _ _ _ h1).2
+        exact iAndL e1 r1 (by omega) h
+    · intro e0 ts hb h
+      rw [pAndLoop.eq_def] at h; simp only at h
+      split at h
+      · cases h
+      · rename_i t r0
+        split at h
+        · split at h
+          · rename_i x hx
+            simp only [Except.error.injEq] at h; subst h
+            simp only [List.length_cons] at hb
+            exact iNeg r0 (by omega) hx
+          · rename_i e2 r2 h2
+            have := (sNeg _ _ _ h2).2
+            simp only [List.length_cons] at hb
+            exact iAndL _ r2 (by omega) h
+        · cases h
+    · intro ts hb h
+      rw [pNeg.eq_def] at h; simp only at h
+      split at h
+      · exact iGrp _ (by omega) h
+      · rename_i t r0
+        simp only [List.length_cons] at hb
+        split at h
+        · split at h
+          · rename_i x hx
+            simp only [Except.error.injEq] at h; subst h
+            exact iGrp r0 (by omega) hx
+          · split at h <;> cases h
+        · exact iGrp (t :: r0) (by simp only [List.length_cons]; omega) h
+    · intro ts hb h
+      rw [pGroup.eq_def] at h; simp only at h
+      split at h
+      · cases h
+      · rename_i t r0
+        simp only [List.length_cons] at hb
+        split at h
+        · split at h
+          · rename_i x hx
+            simp only [Except.error.injEq] at h; subst h
+            exact iOr r0 (by omega) hx
+          · split at h
+            · cases h
+            · split at h <;> cases h
+        · split at h
+          · split at h
+            · rename_i x hx
+              simp only [Except.error.injEq] at h; subst h
+              exact iOr r0 (by omega) hx
+            · split at h
+              · cases h
+              · split at h <;> cases h
+          · split at h
+            · split at h
+              · rename_i x hx
+                simp only [Except.error.injEq] at h; subst h
+                exact iOr r0 (by omega) hx
+              · rename_i e1 r1 h1
+                have hl := (sOr _ _ _ h1).2
+                split at h
+                · cases h
+                · rename_i c r2
+                  simp only [List.length_cons] at hl
+                  split at h
+                  · cases h
+                  · split at h
+                    · exact iOr r2 (by omega) (afterColon_fuel _ _ _ h)
+                    · cases h
+            · split at h
+              · rename_i x hx
+                simp only [Except.error.injEq] at h; subst h
+                unfold termOf at hx
+                split at hx
+                · cases hx
+                · split at hx <;> cases hx
+              · cases h
+
+theorem parseToks_not_fuel (lg : Bool) (ts : List Token) : parseToks lg ts ≠ .error .fuel := by
+  unfold parseToks
+  split
+  · rename_i x hx
+    intro h
+    simp only [Except.error.injEq] at h; subst h
+    exact (fuelAll lg (fuelFor ts)).1 ts (by unfold fuelFor; omega) hx
+  · split <;> simp
+
+/-- a compiled token list has properly nested grouping symbols (repaired parser) -/
+theorem parseToks_balanced (ts : List Token) (e : Expr) (h : parseToks false ts = .ok e) :
+    Balanced (brs ts) := by
+  unfold parseToks at h
+  split at h
+  · cases h
+  · rename_i e1 r1 h1
+    split at h
+    · rename_i hr
+      rw [List.isEmpty_iff] at hr; subst hr
+      rcases ((segAll false _).1 _ _ _ h1).1 with ⟨c, hc, hn⟩
+      rw [hc, List.append_nil]
+      have := hn rfl [] []
+      simpa [Balanced, scan] using this
+    · cases h
+
 end HedVerif.Query
 
 namespace HedVerif.C15
